@@ -233,5 +233,40 @@ static void blk_sm9(void) {
 	  if (vh_shard == 0 && !vh_replay_block) vh_sample("{\"block\":\"sm9-points\",\"alias_cases_g1\":[%d,%d],\"alias_cases_g2\":[%d,%d,%d,%d]}", seen1[0], seen1[1], seen2[0], seen2[1], seen2[2], seen2[3]); BN_free(lim); }
 	BN_free(t);
 }
-static void body(void) { blk_points(); blk_octets(); blk_tls_share_lengths(); blk_scalars(); blk_sm9(); }
+/* replace the element that occupies [off, off+dl) of a DER tree by `ins` (il octets, may be empty), re-encoding the length of every enclosing element */
+static size_t der_splice(const uint8_t *in, size_t n, size_t off, size_t dl, const uint8_t *ins, size_t il, uint8_t *out) {
+	der_cur c = { in, n }; size_t o = 0;
+	while (c.n) { const uint8_t *start = c.p; int tag; const uint8_t *v; size_t vl, h; if (!der_tlv(&c, &tag, &v, &vl, &h)) vh_harness_error("der_splice: malformed input"); size_t pos = (size_t)(start - in);
+		if (pos == off && h + vl == dl) { if (il) memcpy(out + o, ins, il); o += il; }
+		else if ((tag & 0x20) && off >= pos + h && off + dl <= pos + h + vl) { uint8_t *tmp = (uint8_t *)malloc(vl + il + 8); size_t tl = der_splice(v, vl, off - (pos + h), dl, ins, il, tmp); o += der_put_tlv(out + o, tag, tmp, tl); free(tmp); }
+		else { memcpy(out + o, start, h + vl); o += h + vl; } }
+	return o;
+}
+static size_t find_sub(const uint8_t *hay, size_t n, const uint8_t *needle, size_t m) { for (size_t i = 0; i + m <= n; i++) if (!memcmp(hay + i, needle, m)) return i; return (size_t)-1; }
+/* key-bearing containers in which the key field is ABSENT or EMPTY (the subjectPublicKeyInfo removed from a certificate or a request, an info without its
+   bit string, an empty bit string, ...): there are no coordinates to validate, so an import that reports success hands out a key nobody supplied.
+   The output object is pre-filled with an off-curve value; every interface must refuse. */
+static void blk_absent(void) {
+	if (!vh_block_begin("absent-key-field")) return;
+	size_t coff = find_sub(CERT, CERTL, SPKI, SPKIL), roff = find_sub(REQ, REQL, SPKI, SPKIL); if (coff == (size_t)-1 || roff == (size_t)-1) vh_harness_error("SPKI not embedded verbatim");
+	/* replacement elements for the SPKI: nothing; empty SEQUENCE; algorithm only; algorithm + empty BIT STRING; algorithm + BIT STRING holding only the 04 prefix; bit string first; NULL; [1] EXPLICIT wrapper around the good info */
+	static uint8_t REP[9][260]; size_t RL[9]; static const char *RN[9] = { "removed", "empty-sequence", "algorithm-only", "empty-bit-string", "bit-string-with-prefix-only", "bit-string-only", "null-instead", "wrapped-in-[1]", "octet-string-instead-of-bit-string" };
+	{ der_cur c = { SPKI, SPKIL }; int tag; const uint8_t *v; size_t vl; if (!der_tlv(&c, &tag, &v, &vl, NULL)) vh_harness_error("spki"); der_cur in = { v, vl }; const uint8_t *alg = in.p; const uint8_t *av, *bv; size_t avl, bvl, ah, bh; if (!der_tlv(&in, &tag, &av, &avl, &ah)) vh_harness_error("alg"); size_t algl = ah + avl; const uint8_t *bits = in.p; if (!der_tlv(&in, &tag, &bv, &bvl, &bh)) vh_harness_error("bits"); size_t bitsl = bh + bvl; uint8_t t[260]; size_t n;
+	  RL[0] = 0; RL[1] = der_put_tlv(REP[1], 0x30, NULL, 0); RL[2] = der_put_tlv(REP[2], 0x30, alg, algl);
+	  memcpy(t, alg, algl); n = algl; t[n++] = 0x03; t[n++] = 0x01; t[n++] = 0x00; RL[3] = der_put_tlv(REP[3], 0x30, t, n);
+	  memcpy(t, alg, algl); n = algl; t[n++] = 0x03; t[n++] = 0x02; t[n++] = 0x00; t[n++] = 0x04; RL[4] = der_put_tlv(REP[4], 0x30, t, n);
+	  RL[5] = der_put_tlv(REP[5], 0x30, bits, bitsl); REP[6][0] = 0x05; REP[6][1] = 0x00; RL[6] = 2; RL[7] = der_put_tlv(REP[7], 0xa1, SPKI, SPKIL);
+	  memcpy(t, alg, algl); n = algl; memcpy(t + n, bits, bitsl); t[n] = 0x04; n += bitsl; RL[8] = der_put_tlv(REP[8], 0x30, t, n); }
+	for (int ri = 0; ri < 9; ri++) { if (!vh_next()) continue; static uint8_t m[1200]; size_t ml; SM2_KEY k; int r; char key[160];
+#define POISON(K) memset(&(K), 0xAA, sizeof(K))
+#define REFUSE(IFACE) do { vh_eval(vh_hash(IFACE, strlen(IFACE), 9100 + ri)); if (r == 1) { uint8_t b[64]; key_back(&k, b); snprintf(key, sizeof key, "C12:%s:accepts-container-without-a-key:%s", IFACE, RN[ri]); vh_viol(key, "\"returned_key\":\"%s\",\"on_curve\":%d", vh_hex(b, 64), sr_xy_on_curve(b)); } } while (0)
+		ml = der_splice(CERT, CERTL, coff, SPKIL, REP[ri], RL[ri], m); POISON(k); r = x509_cert_get_subject_public_key(m, ml, &k); REFUSE("x509_cert_get_subject_public_key");
+		{ int ver, sa; const uint8_t *sn, *is, *su, *iu, *suid, *ex, *sg; size_t snl, isl, sul, iul, suidl, exl, sgl; time_t nb, na; POISON(k); r = x509_cert_get_details(m, ml, &ver, &sn, &snl, &sa, &is, &isl, &nb, &na, &su, &sul, &k, &iu, &iul, &suid, &suidl, &ex, &exl, &sa, &sg, &sgl); REFUSE("x509_cert_get_details"); }
+		ml = der_splice(REQ, REQL, roff, SPKIL, REP[ri], RL[ri], m); { int ver; const uint8_t *s_, *at, *sg; size_t sl, al, sgl; int alg; POISON(k); r = x509_req_get_details(m, ml, &ver, &s_, &sl, &k, &at, &al, &alg, &sg, &sgl); REFUSE("x509_req_get_details"); }
+		if (ri) { const uint8_t *cp = REP[ri]; size_t l = RL[ri]; POISON(k); r = sm2_public_key_info_from_der(&k, &cp, &l); REFUSE("sm2_public_key_info_from_der");
+			FILE *f = tmpfile(); pem_write(f, "PUBLIC KEY", REP[ri], RL[ri]); rewind(f); POISON(k); r = sm2_public_key_info_from_pem(&k, f); fclose(f); REFUSE("sm2_public_key_info_from_pem"); }
+		vh_sample("{\"block\":\"absent-key-field\",\"replacement\":\"%s\",\"octets\":\"%s\"}", RN[ri], vh_hex(REP[ri], RL[ri]));
+	}
+}
+static void body(void) { blk_points(); blk_absent(); blk_octets(); blk_tls_share_lengths(); blk_scalars(); blk_sm9(); }
 int main(int argc, char **argv) { vh_init(argc, argv); build_values(); build_containers(); vh_guarded("C12", body, 60); return vh_finish(); }
